@@ -1,5 +1,6 @@
 import Driver.F64Ops
 import ScionTime.Model.Pll
+import ScionTime.Model.PllClock
 open Driver ScionTime.F64 ScionTime.Pll
 
 /-- ops:
@@ -10,6 +11,21 @@ open Driver ScionTime.F64 ScionTime.Pll
       -> ok e=<epoch> m=<mode> t0=<sec>:<ns> t=<sec>:<ns> a=<hex16> b=<hex16> i=<hex16> [step:<d>] [adj:<off>:<dur>:<hex16>]
        | panic explicit:unexpected_clock_behavior | panic explicit:unexpected_PLL_mode
   (f64.* ops are answered as in drv_f64)
+
+  the clock object (Model/SysClock.lean) and the PLL on it (Model/PllClock.lean); harness/cmd/c19clk:
+  sc.new <real|sealed>            -> ok          (fresh SystemClock and a fresh PLL on it)
+  sc.setepoch <n>                 -> ok          (harness writes the unexported field)
+  sc.epoch                        -> ok <epoch>
+  sc.step <offset>                -> ok e=<epoch> <acts> | panic explicit:epoch_overflow e=<epoch> <acts>
+  sc.adjust <offset> <duration> <freq:hex16>
+                                  -> ok e=<epoch> freq:<hex16> spawn:<id> | panic explicit:invalid_duration_value e=<epoch>
+  sc.expire <id>…                 -> ok e=<epoch> [s=<whole seconds slept>, single id only] <acts>
+                                     (the tails of the expiry goroutines of these adjustments run, in this order)
+  sc.sleep <duration>             -> ok e=<epoch> sleep:<d> slept:<d> | panic explicit:invalid_duration_value e=<epoch> sleep:<d>
+                                     (sleep: the debug record written first; slept: the wrapper call, seen as elapsed time)
+  scpll.do <sec> <nsec> <offset> <weight:hex16> pow=<hex16>
+      -> ok <pll state> ce=<clock epoch> <acts> | panic explicit:<msg> <pll state> ce=<clock epoch> <acts>
+  <acts>: off:<ns> | freq:<hex16> | sleep:<ns> | slept:<ns> | spawn:<id>
 -/
 def fmtTime (t : Int) : String := s!"{t / 1000000000}:{t % 1000000000}"
 
@@ -32,14 +48,107 @@ def pllDo (s : State) (e sec ns off w pw : String) : State × String :=
     else (s, "bad-op")
   | _, _, _, _, _, _ => (s, "bad-op")
 
-def step (s : State) (toks : List String) : State × String :=
-  match toks with
-  | ["pll.new"] => (ScionTime.Pll.init, "ok")
-  | ["pll.do", e, sec, ns, off, w, pw, "rc"] => pllDo s e sec ns off w pw
-  | ["pll.do", e, sec, ns, off, w, pw] => pllDo s e sec ns off w pw
-  | _ =>
-    match f64Step toks with
-    | some r => (s, r)
-    | none => (s, "bad-op")
+/-! ### the clock object and the PLL on it -/
 
-def main : IO Unit := run ScionTime.Pll.init step
+open ScionTime in
+def fmtClkAction : SysClock.Action → String
+  | .setOffset d => s!" off:{d}"
+  | .setFrequency f => s!" freq:{fmtF f}"
+  | .sleepLog d => s!" sleep:{d}"
+  | .sleep d => s!" slept:{d}"
+  | .spawn id _ => s!" spawn:{id}"
+
+open ScionTime in
+def fmtClkActs (acts : List SysClock.Action) : String := String.join (acts.map fmtClkAction)
+
+open ScionTime in
+def fmtClkOutcome : SysClock.Outcome → String
+  | .ok c acts => s!"ok e={c.epoch}{fmtClkActs acts}"
+  | .panic .epochOverflow c acts => s!"panic explicit:epoch_overflow e={c.epoch}{fmtClkActs acts}"
+  | .panic .invalidDuration c acts => s!"panic explicit:invalid_duration_value e={c.epoch}{fmtClkActs acts}"
+
+structure St where
+  pll : State                       -- the PLL of the pll.* ops (scripted clock)
+  pc : ScionTime.PllClock.State     -- the clock object of the sc.* ops and the PLL on it
+
+def i64? (s : String) : Option Int :=
+  match parseInt? s with
+  | some v => if minI64 ≤ v ∧ v ≤ maxI64 then some v else none
+  | none => none
+
+open ScionTime in
+/-- `sc.expire id…`: the goroutine tails in the given order; `none` if one of them does not exist -/
+def expireAll (c : SysClock.State) (acts : List SysClock.Action) : List Nat → Option (SysClock.State × List SysClock.Action)
+  | [] => some (c, acts)
+  | id :: rest =>
+    match SysClock.expire c id with
+    | some o => expireAll o.state (acts ++ o.acts) rest
+    | none => none
+
+open ScionTime in
+def scStep (s : St) (toks : List String) : Option (St × String) :=
+  let c := s.pc.clk
+  let withClk (o : SysClock.Outcome) : St × String := ({ s with pc := { s.pc with clk := o.state } }, fmtClkOutcome o)
+  match toks with
+  | ["sc.new", m] =>
+    if m = "real" ∨ m = "sealed" then some ({ s with pc := PllClock.init }, "ok") else some (s, "bad-op")
+  | ["sc.setepoch", n] =>
+    match parseNat? n with
+    | some n => if n < 2 ^ 64 then some ({ s with pc := { s.pc with clk := { c with epoch := n } } }, "ok") else some (s, "bad-op")
+    | none => some (s, "bad-op")
+  | ["sc.epoch"] => some (s, s!"ok {SysClock.epoch c}")
+  | ["sc.step", off] =>
+    match i64? off with
+    | some off => some (withClk (SysClock.step c off))
+    | none => some (s, "bad-op")
+  | ["sc.adjust", off, dur, f] =>
+    match i64? off, i64? dur, parseF? f with
+    | some off, some dur, some f => some (withClk (SysClock.adjust c off dur f))
+    | _, _, _ => some (s, "bad-op")
+  | ["sc.sleep", d] =>
+    match i64? d with
+    | some d => some (withClk (SysClock.sleep c d))
+    | none => some (s, "bad-op")
+  | "sc.expire" :: ids =>
+    match ids.mapM parseNat? with
+    | some (id :: rest) =>
+      match expireAll c [] (id :: rest) with
+      | some (c', acts) =>
+        let secs := if rest.isEmpty then
+            match c.pending.find? (fun a => a.id = id) with
+            | some a => s!" s={a.duration / 1000000000}"
+            | none => ""
+          else ""
+        some ({ s with pc := { s.pc with clk := c' } }, s!"ok e={c'.epoch}{secs}{fmtClkActs acts}")
+      | none => some (s, "bad-op")
+    | _ => some (s, "bad-op")
+  | ["scpll.do", sec, ns, off, w, pw] =>
+    match parseInt? sec, parseInt? ns, i64? off, parseF? w, (kv? [pw] "pow").bind parseF? with
+    | some sec, some ns, some off, some w, some pw =>
+      if 0 ≤ ns ∧ ns < 1000000000 ∧ -1099511627776 ≤ sec ∧ sec ≤ 1099511627776 then
+        match PllClock.update s.pc (sec * 1000000000 + ns) off w pw with
+        | .ok s' acts => some ({ s with pc := s' }, s!"ok {fmtState s'.pll} ce={s'.clk.epoch}{fmtClkActs acts}")
+        | .pllPanic .clock => some (s, s!"panic explicit:unexpected_clock_behavior {fmtState s.pc.pll} ce={c.epoch}")
+        | .pllPanic .mode => some (s, s!"panic explicit:unexpected_PLL_mode {fmtState s.pc.pll} ce={c.epoch}")
+        | .clockPanic .epochOverflow s' acts =>
+          some ({ s with pc := s' }, s!"panic explicit:epoch_overflow {fmtState s'.pll} ce={s'.clk.epoch}{fmtClkActs acts}")
+        | .clockPanic .invalidDuration s' acts =>
+          some ({ s with pc := s' }, s!"panic explicit:invalid_duration_value {fmtState s'.pll} ce={s'.clk.epoch}{fmtClkActs acts}")
+      else some (s, "bad-op")
+    | _, _, _, _, _ => some (s, "bad-op")
+  | _ => none
+
+def step (s : St) (toks : List String) : St × String :=
+  match toks with
+  | ["pll.new"] => ({ s with pll := ScionTime.Pll.init }, "ok")
+  | ["pll.do", e, sec, ns, off, w, pw, "rc"] => let (p, r) := pllDo s.pll e sec ns off w pw; ({ s with pll := p }, r)
+  | ["pll.do", e, sec, ns, off, w, pw] => let (p, r) := pllDo s.pll e sec ns off w pw; ({ s with pll := p }, r)
+  | _ =>
+    match scStep s toks with
+    | some r => r
+    | none =>
+      match f64Step toks with
+      | some r => (s, r)
+      | none => (s, "bad-op")
+
+def main : IO Unit := run { pll := ScionTime.Pll.init, pc := ScionTime.PllClock.init : St } step
